@@ -170,7 +170,7 @@ def grammar(version):
 # ---------------------------------------------------------------------------
 # tree signatures (reference model side)
 # ---------------------------------------------------------------------------
-from .sig import tree_sig, tree_lines  # noqa: E402
+from .sig import tree_sig, tree_lines, code_of  # noqa: E402
 
 
 def used_names_sig(module):
@@ -197,7 +197,7 @@ def ref_outcome(version, content):
             except Exception as e:
                 r = ('exc', type(e).__name__, None, None)
             else:
-                r = ('ok', tree_sig(m)[0], m.get_code(), used_names_sig(m))
+                r = ('ok', tree_sig(m)[0], code_of(m), used_names_sig(m))
         if len(_REF) > 4000:
             _REF.clear()
         _REF[key] = r
@@ -1061,7 +1061,7 @@ class World:
             return
         try:
             sig, problems = tree_sig(m)
-            code = m.get_code()
+            code = code_of(m)
         except Exception as e:
             self._violate(ctx, 'tree-broken', 'tree-broken:' + type(e).__name__,
                           'returned tree cannot be walked: %r' % (e,))
